@@ -641,6 +641,15 @@ func (ck *Check) helperPredicates(rule string) {
 			keys := map[string]string{}
 			if gl, ok := lookup.Args[0].Val.(*ssa.Global); ok {
 				init := gl.Pkg.Func("init")
+				// the map literal the initialiser stores into this very variable
+				var lit ssa.Value
+				for _, b := range init.Blocks {
+					for _, in := range b.Instrs {
+						if st, ok := in.(*ssa.Store); ok && st.Addr == ssa.Value(gl) {
+							lit = st.Val
+						}
+					}
+				}
 				for _, b := range init.Blocks {
 					for _, in := range b.Instrs {
 						if mu, ok := in.(*ssa.MapUpdate); ok {
@@ -650,8 +659,7 @@ func (ck *Check) helperPredicates(rule string) {
 								if k != nil && v != nil {
 									keys[k.Value.String()] = v.Value.String()
 								}
-							} else if mm, ok := mu.Map.(*ssa.MakeMap); ok {
-								_ = mm
+							} else if mm, ok := mu.Map.(*ssa.MakeMap); ok && ssa.Value(mm) == lit {
 								k, _ := mu.Key.(*ssa.Const)
 								v, _ := mu.Value.(*ssa.Const)
 								if k != nil && v != nil {
